@@ -9,12 +9,14 @@ by an own DEX reader). Oracle per block:
     catch-all reported as Ljava/lang/Throwable;), and every handler is linked to the block that *starts* at the address.
 Blocks are always split at try starts (C10), so a block overlaps at most one try; if it overlapped several, any of them
 is accepted (DESIGN O C12).
+Histories (cfg_common): a share of the cases goes on after the first analysis - the same parsed DEX object is analysed
+again ('history:reanalyse:*' buckets: the clauses must hold for the blocks of every analysis, judged by identity).
 """
 from vf.checks import cfg_common as K
 
 PROPERTY = 'C12'
 LEVEL = 'exploration'
-RULE = ('generated: batches of 1-6 abstract methods with 1-3 non-overlapping tries whose start/end are placed at, one instruction before and one after branch targets, adjacent tries, tries inside loops, branches into the middle of a try, shared handler lists, handlers inside their own try; shipped: as in C10 (all methods with tries are always included). non-trivial = some block starts strictly inside a try, or a try boundary is not a leader for any other reason; distinct = (code bytes, tries)')
+RULE = ('generated: batches of 1-6 abstract methods with 1-3 non-overlapping tries whose start/end are placed at, one instruction before and one after branch targets, adjacent tries, tries inside loops, branches into the middle of a try, shared handler lists, handlers inside their own try; shipped: as in C10 (all methods with tries are always included). non-trivial = some block starts strictly inside a try, or a try boundary is not a leader for any other reason; distinct = (code bytes, tries); histories (share of the cases, label history:*): 1/2 of the generated batches and every shipped DEX <= 100 kB analyse the SAME parsed DEX object again (second Analysis(d), one more MethodAnalysis(d, m)) and apply the oracle to the blocks of that later analysis')
 ASSUMPTIONS = [
     'vf/gen/dalvik_spec.py, vf/gen/asm.py, vf/gen/dexgen.py and vf/gen/cfggen.py produce well-formed code items (typed from the Dalvik/DEX specifications; the length table tiles every shipped code item)',
     'reference semantics in vf/model/cfg.py: branch and switch-target offsets are relative to the branching instruction (code units), switch falls through, goto/return*/throw do not; a try covers the instructions whose address lies in [start_addr, start_addr+insn_count)',
